@@ -286,19 +286,66 @@ func (cx *Ctx) c08Callback(r *Report) {
 		// the error handed over may be worked out by a helper that returns (outputs, err):
 		// the rule is applied to what that helper returns
 		for d := 0; d < 3; d++ {
-			ex, isEx := errArg.(*ssa.Extract)
-			if !isEx {
+			var c *ssa.Call
+			idx := 0
+			switch y := errArg.(type) {
+			case *ssa.Extract:
+				c, _ = y.Tuple.(*ssa.Call)
+				idx = y.Index
+			case *ssa.Call:
+				c = y // a helper that returns just the error (thresholdShortfall(n, threshold))
+			}
+			if c == nil || c.Common().IsInvoke() {
 				break
 			}
-			c, isCall := ex.Tuple.(*ssa.Call)
-			if !isCall || c.Common().IsInvoke() {
-				break
-			}
+			ex := struct{ Index int }{idx}
 			g := c.Common().StaticCallee()
 			if g == nil || g.Blocks == nil || !isIrismodFunc(g) {
 				break
 			}
 			rets := returnsOf(g)
+			// the helper decides with two returns: nil when len ≥ threshold, the error otherwise
+			if len(rets) == 2 && ex.Index < len(rets[0].Results) && ex.Index < len(rets[1].Results) {
+				nilRet, errRet := rets[0], rets[1]
+				if !isNilConst(nilRet.Results[ex.Index]) {
+					nilRet, errRet = errRet, nilRet
+				}
+				if isNilConst(nilRet.Results[ex.Index]) && isErrValue(errRet.Results[ex.Index], errRet.Block(), 0) {
+					isLenArg := func(v ssa.Value) bool {
+						if pa, isP := v.(*ssa.Parameter); isP {
+							for i, q := range g.Params {
+								if q == pa && i < len(c.Common().Args) {
+									v = c.Common().Args[i]
+								}
+							}
+						}
+						if lc, isCall := v.(*ssa.Call); isCall {
+							if b, isB := lc.Common().Value.(*ssa.Builtin); isB && b.Name() == "len" {
+								return true
+							}
+						}
+						return false
+					}
+					reached := func(ret *ssa.Return, wantAtLeast bool) bool {
+						for _, df := range dominatingFacts(ret.Block()) {
+							bo, isBin := df.Cond.(*ssa.BinOp)
+							if !isBin || !isLenArg(bo.X) {
+								continue
+							}
+							atLeast := (bo.Op.String() == ">=" && df.Holds) || (bo.Op.String() == "<" && !df.Holds)
+							below := (bo.Op.String() == "<" && df.Holds) || (bo.Op.String() == ">=" && !df.Holds)
+							if wantAtLeast && atLeast || !wantAtLeast && below {
+								return true
+							}
+						}
+						return false
+					}
+					if reached(nilRet, true) && reached(errRet, false) {
+						ok = true
+					}
+				}
+				break
+			}
 			if len(rets) != 1 || ex.Index >= len(rets[0].Results) {
 				break
 			}
